@@ -39,6 +39,13 @@ Definition expect_table (t : table) (out : frame) : N :=
        | _ => 2
        end.
 
+(* one aggregation: source column, destination name, and what the statement says its value is *)
+Inductive agg_fn :=
+| AggCount                                           (* "count": the size of the group *)
+| AggTable (tbl : list (list cell * cell))           (* a function of the group's values taken in frame order *)
+| AggOpen.
+Definition agg_spec := (bytes * bytes * agg_fn)%type.   (* (column, as, function) *)
+
 Inductive frame_case :=
 | FFilter (input : frame) (mt : matcher_table) (c : clause) (out : frame)
 | FSlice (input : frame) (a b : Z) (out : frame)
@@ -50,7 +57,8 @@ Inductive frame_case :=
 | FRowNums (input : frame) (name : bytes) (out : frame)
 | FEquals (f g : frame) (obs : bool)
 | FNew (data : list (bytes * newdata)) (order : list bytes) (enums : list (bytes * list bytes)) (out : frame)
-| FEval (input : frame) (ut : upper_table) (cx : ctx) (dst : bytes) (call : earg) (out : frame).
+| FEval (input : frame) (ut : upper_table) (cx : ctx) (dst : bytes) (call : earg) (out : frame)
+| FAggregate (input : frame) (keycols : list bytes) (groups : list (list nat)) (aggs : list agg_spec) (out : frame).
 
 Definition first_nonzero (a b : N) : N := if a =? 0 then b else a.
 
@@ -171,6 +179,63 @@ Definition eval_oracle (f : frame) (cx : ctx) (dst : bytes) (e : expr) (out : fr
        | _ => 3
        end.
 
+(* ------------------------------------------------------------------ Aggregate: one row per group *)
+
+Definition cells_eqb (a b : list cell) : bool := list_eqb cell_obs_eqb a b.
+
+(* the expected cell of one aggregation for one group; None = open *)
+Definition agg_cell (f : frame) (a : agg_spec) (g : list nat) : outcome (option cell) :=
+  let '(col, _, fn) := a in
+  match fn with
+  | AggCount => Ok (Some (CInt (Z.of_nat (length g))))
+  | AggOpen => Ok None
+  | AggTable tbl =>
+      match lookup_col f col with
+      | None => Panic
+      | Some c =>
+          do vals <- omap (cell_at c) g;
+          Ok (match find (fun e => cells_eqb (map (fun x => match x with CEnum s => CStr s | y => y end) (fst e))
+                                             (map (fun x => match x with CEnum s => CStr s | y => y end) vals)) tbl with
+              | Some e => Some (snd e)
+              | None => None
+              end)
+      end
+  end.
+
+Definition aggregate_oracle (f : frame) (keycols : list bytes) (groups : list (list nat)) (aggs : list agg_spec) (out : frame) : N :=
+  if ferr out then 0     (* validity is judged by the Go side (unknown column, name clash, function type) *)
+  else
+    match abs out with
+    | Ok t =>
+        let names := keycols ++ map (fun a => snd (fst a)) aggs in
+        if negb (list_eqb bytes_eqb (tnames t) names) then 2
+        else if negb (Nat.eqb (length (trows t)) (length groups)) then 2
+        else
+          let row_ok (gr : list nat * list cell) : bool :=
+            let '(g, row) := gr in
+            match g with
+            | [] => false
+            | first :: _ =>
+                (* the key values of the group, then one value per aggregation *)
+                let keys_ok :=
+                  forallb (fun kc : nat * bytes =>
+                             match lookup_col f (snd kc), nth_error row (fst kc) with
+                             | Some c, Some x => match cell_at c first with Ok y => cell_obs_eqb x y | _ => false end
+                             | _, _ => false
+                             end) (combine (seq 0 (length keycols)) keycols) in
+                let aggs_ok :=
+                  forallb (fun ka : nat * agg_spec =>
+                             match agg_cell f (snd ka) g, nth_error row (length keycols + fst ka) with
+                             | Ok (Some y), Some x => cell_obs_eqb x y
+                             | Ok None, Some _ => true
+                             | _, _ => false
+                             end) (combine (seq 0 (length aggs)) aggs) in
+                keys_ok && aggs_ok
+            end in
+          if forallb row_ok (combine groups (trows t)) && wf_frame out then 0 else 2
+    | _ => 2
+    end.
+
 Definition check_frame_case (c : frame_case) : N :=
   match c with
   | FFilter f mt cl out =>
@@ -288,6 +353,7 @@ Definition check_frame_case (c : frame_case) : N :=
       first_nonzero oracle (match equals f g with Ok b => if Bool.eqb b obs then 0 else 1 | _ => 3 end)
   | FNew data order enums out =>
       first_nonzero (new_oracle data order enums out) (model_code (new_frame data order enums) out)
+  | FAggregate f keycols groups aggs out => aggregate_oracle f keycols groups aggs out
   | FEval f ut cx dst call out =>
       let e := new_expr call in
       first_nonzero (eval_oracle f cx dst e out) (model_code (eval ut cx f dst e) out)
